@@ -103,15 +103,18 @@ structure DurFmt where
   pd : String → Option Int
   roundTrip : ∀ d, d > 0 → pd (fmt d) = some d
 
-/-- the environment `RunCompiled` starts the binary with: mage's own, then the MAGEFILE_* bindings appended
-(os/exec keeps the last binding of a key) -/
-def childEnv (fmtDur : Int → String) (E : Env) (inv : Inv) : Env :=
-  E ++ [("MAGEFILE_VERBOSE", formatBool inv.verbose)]
+/-- the bindings `RunCompiled` appends to mage's own environment, in the order the code appends them -/
+def childBindings (fmtDur : Int → String) (inv : Inv) : Env :=
+  [("MAGEFILE_VERBOSE", formatBool inv.verbose)]
     ++ (if inv.list then [("MAGEFILE_LIST", "1")] else [])
     ++ (if inv.help then [("MAGEFILE_HELP", "1")] else [])
     ++ [("MAGEFILE_DEBUG", formatBool inv.debug)]
     ++ (if inv.goCmd ≠ "" then [("MAGEFILE_GOCMD", inv.goCmd)] else [])
     ++ (if inv.timeout > 0 then [("MAGEFILE_TIMEOUT", fmtDur inv.timeout)] else [])
+
+/-- the environment `RunCompiled` starts the binary with: mage's own (`os.Environ()`, unaltered), then the
+MAGEFILE_* bindings appended (os/exec keeps the last binding of a key) -/
+def childEnv (fmtDur : Int → String) (E : Env) (inv : Inv) : Env := E ++ childBindings fmtDur inv
 
 /-- the argument vector: flags travel in the environment, `--` keeps the words from being parsed as flags -/
 def childArgv (inv : Inv) : List String := "--" :: inv.args
